@@ -54,19 +54,21 @@ var moreKinds = []string{"unix+tls", "unix+starttls", "ws+starttls", "udp+startt
 
 // Stall points.
 const (
-	ptConnect    = "connect"             // transport connected, not one byte sent (dns: tunnel session allocated, never written to)
-	ptTLSHello   = "tls-hello"           // first 20 bytes of a real TLS ClientHello record
-	ptHTTPReq    = "http-request"        // inside the HTTP request line of the websocket upgrade
-	ptWSOpen     = "ws-open"             // websocket upgrade completed, no socketace byte sent
-	ptFirstLine  = "first-line"          // "X-SOCKETACE / HT"
-	ptBetween    = "between-requests"    // complete announce request sent, 200 read, nothing more
-	ptSTLS101    = "starttls-101"        // announce, upgrade with Security: StartTLS, 101 read, nothing more
-	ptSTLSHello  = "starttls-hello"      // ... and then the first 20 bytes of a ClientHello
-	ptUpSilent   = "upgraded-silent"     // complete handshake (101 read), silence
-	ptUpGarbage  = "upgraded-garbage"    // complete handshake, 64 bytes that are no smux frame, silence
-	ptDNSVersion = "dns-version-only"    // dns: query-type probe + version request only (the request that allocates the session the server will Accept), then silence: not one packet request
-	ptDNSOptions = "dns-options-only"    // dns: version + every option / probe command of the tunnel negotiation, but no packet request and no poll loop, then silence
-	ptUpHalf     = "upgraded-half-frame" // complete handshake, 5 of the 8 bytes of a valid smux frame header, silence
+	ptConnect    = "connect"                // transport connected, not one byte sent (dns: tunnel session allocated, never written to)
+	ptTLSHello   = "tls-hello"              // first 20 bytes of a real TLS ClientHello record
+	ptHTTPReq    = "http-request"           // inside the HTTP request line of the websocket upgrade
+	ptWSOpen     = "ws-open"                // websocket upgrade completed, no socketace byte sent
+	ptFirstLine  = "first-line"             // "X-SOCKETACE / HT"
+	ptBetween    = "between-requests"       // complete announce request sent, 200 read, nothing more
+	ptSTLS101    = "starttls-101"           // announce, upgrade with Security: StartTLS, 101 read, nothing more
+	ptSTLSHello  = "starttls-hello"         // ... and then the first 20 bytes of a ClientHello
+	ptUpSilent   = "upgraded-silent"        // complete handshake (101 read), silence
+	ptUpGarbage  = "upgraded-garbage"       // complete handshake, 64 bytes that are no smux frame, silence
+	ptDNSVersion = "dns-version-only"       // dns: query-type probe + version request only (the request that allocates the session the server will Accept), then silence: not one packet request
+	ptDNSOptions = "dns-options-only"       // dns: version + every option / probe command of the tunnel negotiation, but no packet request and no poll loop, then silence
+	ptDNSReqGone = "dns-request-then-gone"  // dns: tunnel up, complete announce request uploaded, then the peer stops polling for good: the server's 200 is never fetched / acknowledged
+	ptDNSUpGone  = "dns-upgraded-then-gone" // dns: complete socketace handshake (101 read), then the peer stops polling for good: the server's next keep-alive frame is never fetched
+	ptUpHalf     = "upgraded-half-frame"    // complete handshake, 5 of the 8 bytes of a valid smux frame header, silence
 )
 
 // baseOf splits an endpoint kind into transport and security ("", "tls" = TLS endpoint, "starttls").
@@ -90,7 +92,7 @@ func pointsOf(kind string) []string {
 		pts = append(pts, ptConnect)
 	}
 	if base == "dns" {
-		pts = append(pts, ptDNSVersion, ptDNSOptions)
+		pts = append(pts, ptDNSVersion, ptDNSOptions, ptDNSReqGone, ptDNSUpGone)
 	}
 	if sec == "tls" {
 		pts = append(pts, ptTLSHello)
@@ -438,6 +440,14 @@ func (b *badPeer) run(p *e2e.Pair, kind string, seed int64) error {
 	case ptFirstLine:
 		return write(b.conn, []byte("X-SOCKETACE / HT"))
 	}
+	if b.Point == ptDNSReqGone {
+		req := &socketace.Request{Method: socketace.RequestMethod, URL: "/", Headers: make(textproto.MIMEHeader)}
+		req.Headers.Set(socketace.AcceptsProtocolVersion, version.ProtocolVersion)
+		req.Headers.Set(socketace.UserAgent, "socketace/"+version.AppVersion())
+		err := req.Write(b.conn)
+		b.dns.Communicator.Close() // no poll, no acknowledgement, no close request from now on
+		return err
+	}
 	if err := b.announce(); err != nil {
 		return err
 	}
@@ -455,6 +465,10 @@ func (b *badPeer) run(p *e2e.Pair, kind string, seed int64) error {
 	}
 	if err := b.upgrade(false); err != nil {
 		return err
+	}
+	if b.Point == ptDNSUpGone {
+		b.dns.Communicator.Close()
+		return nil
 	}
 	if b.Point == ptUpHalf {
 		return write(b.conn, []byte{1, 2, 0x10, 0x00, 3}) // version 1, cmdPSH, length 16, first byte of the stream id
